@@ -5,7 +5,9 @@ clear) every lookup of a lookup set is issued and compared with a list-of-(bindi
   check(l)    (l binds >= 1 key)  <=>  some stored binding is contained in l
   retrieve(l) = multiset of (l merged with b, output) for every stored (b, output) that agrees with l on all shared keys
   clear()     empties both.
-Every stored output is unique (history made unambiguous), so a retrieved pair identifies the insert it came from.
+In two thirds of the histories every stored output is unique (history made unambiguous), so a retrieved pair identifies the insert
+it came from; in the others the outputs are the truth flags the engine really stores (False / 0 / True / '', repeated). In half
+of the histories the same value objects are bound under different keys (what a self-join over one domain does).
 
 Known finding K20: retrieve hides entries behind wildcard/concrete siblings.  An answer that equals the specification is
 fine; one that equals the executable deviation model (computed from the REFERENCE model, not from the cache's own dict)
@@ -53,7 +55,7 @@ def plan(tier, seed):
 def floors(tier):
     return {"distinct_nontrivial": 500, "lookups": 20000, "retrieve.exact": 10000, "check.compared": 10000,
             "cls:full_binding_history": 50, "cls:partial_binding_history": 500, "cls:overwrite": 100, "cls:clear": 100,
-            "cls:extra_nonkey_entries": 100}
+            "cls:extra_nonkey_entries": 100, "cls:values_shared_between_keys": 500, "cls:falsy_and_repeated_outputs": 300}
 
 
 def _bindings(nkeys, alpha=2):
@@ -72,7 +74,7 @@ def cases(spec, ctx):
             for seq in itertools.product(range(len(bs)), repeat=n):
                 if i % spec["stride"] == spec["offset"]:
                     yield {"k": "exh", "nkeys": spec["nkeys"], "alpha": 2, "ops": [["ins", bs[j]] for j in seq], "lookups": "all",
-                           "only_last": True}
+                           "only_last": True, "shared_values": i % 2 == 1, "plain_outputs": i % 3 == 2}
                 i += 1
         return
     for i in range(spec["n"]):
@@ -98,7 +100,8 @@ def cases(spec, ctx):
         for _ in range(6):
             l = [rng.randrange(alpha) if rng.random() < 0.6 else None for _ in range(nkeys)]
             lookups.append([l, rng.random() < 0.25])
-        yield {"k": "rand", "nkeys": nkeys, "alpha": alpha, "ops": ops, "lookups": lookups, "only_last": False}
+        yield {"k": "rand", "nkeys": nkeys, "alpha": alpha, "ops": ops, "lookups": lookups, "only_last": False,
+               "shared_values": rng.random() < 0.5, "plain_outputs": rng.random() < 0.4}
 
 
 # ------------------------------------------------------------------------------------------------ models
@@ -161,7 +164,12 @@ def check_case(case, ctx):
     from entity_query_language.hashed_data import HashedValue
     nkeys, alpha = case["nkeys"], case["alpha"]
     keys = [3, 7, 11, 19][:nkeys]
-    vals = {k: [HashedValue(("v", k, i)) for i in range(alpha)] for k in keys}
+    if case.get("shared_values"):
+        # the same value objects may be bound under different keys (a self-join over one domain does exactly that)
+        shared = [HashedValue(("v", i)) for i in range(alpha)]
+        vals = {k: shared for k in keys}
+    else:
+        vals = {k: [HashedValue(("v", k, i)) for i in range(alpha)] for k in keys}
     extra = HashedValue("extra")
     cache = IndexedCache(list(keys))
     model = []
@@ -171,6 +179,10 @@ def check_case(case, ctx):
         lookups = case["lookups"]
     partial = any(any(x is None for x in op[1]) for op in case["ops"] if op[0] == "ins")
     ctx.cls("cls:partial_binding_history" if partial else "cls:full_binding_history")
+    if case.get("shared_values"):
+        ctx.cls("cls:values_shared_between_keys")
+    if case.get("plain_outputs"):
+        ctx.cls("cls:falsy_and_repeated_outputs")
     known_seen = 0
     for step, op in enumerate(case["ops"]):
         if op[0] == "clear":
@@ -179,7 +191,8 @@ def check_case(case, ctx):
             ctx.cls("cls:clear")
         else:
             b = {k: vals[k][x] for k, x in zip(keys, op[1]) if x is not None}
-            out = f"out{step}"
+            # the engine stores truth flags: outputs may be falsy and need not be unique
+            out = [False, 0, True, ""][step % 4] if case.get("plain_outputs") else f"out{step}"
             if any(mb == b for mb, _ in model):
                 ctx.cls("cls:overwrite")
             cache.insert(dict(b), out)
